@@ -33,12 +33,12 @@ def _one_signed(vecs):
     return any(all(x > 0 for x in v) or all(x < 0 for x in v) for v in vecs)
 
 
-def body(case, rec):
+def body(case, rec, H=None):
     import numpy as np
 
     from synkit.CRN.Props import stoich
 
-    H = crn_gen.build(case)
+    H = crn_gen.build(case) if H is None else H
     species, S = model_matrix(case)
     n, m = len(species), len(case["rx"])
     ST = exact.transpose(S)
@@ -134,6 +134,15 @@ def body(case, rec):
     if not flag and mvec is not None:
         raise Violation("conservation-witness", "witness returned with a negative verdict")
 
+def body_after_edit(case, rec):
+    """Same clauses on a network object that was analysed before and then edited in place."""
+    from synkit.CRN.Props import stoich
+
+    H, final, preserved = crn_gen.build_edited(case, lambda h: (stoich.summary(h), stoich.left_nullspace(h)))
+    body({"rx": final}, rec, H=H)
+    rec.label("count-preserving-edit" if preserved else "counts-changed")
+
+
 # ---------------------------------------------------------------- known finding (attribution predicate)
 def lp_stage_unbounded(case, v, m):
     """True iff the false 'not conservative' verdict is explained by the recorded defect: the exact answer is
@@ -147,6 +156,9 @@ def lp_stage_unbounded(case, v, m):
 
     if "reported False" not in v.message and "reported None" not in v.message:
         return False
+    if "ops" in case:  # after_edit cases: the network is the edited object's final reaction list
+        _, final, _ = crn_gen.build_edited(case, lambda h: None)
+        case = {"rx": final}
     species, S = model_matrix(case)
     ok, _ = exact.positive_kernel_vector(exact.transpose(S))
     if ok is not True:
@@ -207,5 +219,7 @@ def strat(tier):
 SUBS = [
     Sub("exhaustive_small", body, enum=enum_small, exhaustive=("thorough",), shards={"quick": 16, "thorough": 16},
         doc="3 species, coefficients 0..2: all single reactions and every 12th unordered pair (quick); all pairs (thorough, complete)"),
+    Sub("after_edit", body_after_edit, strategy=lambda tier: crn_gen.edited_net_strategy(max_species=4, max_rxn=4, max_coef=2, rules=("r", "q")), examples={"quick": 3000, "thorough": 40000}, shards={"quick": 8, "thorough": 16},
+        doc="network objects reached by in-place edits after an earlier analysis"),
     Sub("random", body, strategy=strat, examples={"quick": 6000, "thorough": 150000}, shards={"quick": 16, "thorough": 16}),
 ]
